@@ -24,6 +24,8 @@ type Engine struct {
 	genFiles    map[string]string // path -> content (overlay)
 	allocPolicy func(x *Exec, st *State, in ssa.Instruction, n *Term, elemSize int)
 	loadSeconds float64
+	constNames  map[string][]string
+	constTabs   map[string][]*constTable
 }
 
 func env() []string {
@@ -75,6 +77,18 @@ func (e *Engine) Load() error {
 			if err != nil {
 				return err
 			}
+			var im2 []string
+			for _, s := range im {
+				if strings.HasPrefix(s, "const:") {
+					if e.constNames == nil {
+						e.constNames = map[string][]string{}
+					}
+					e.constNames[p.PkgPath] = append(e.constNames[p.PkgPath], strings.TrimPrefix(s, "const:"))
+				} else {
+					im2 = append(im2, s)
+				}
+			}
+			im = im2
 			cts = append(cts, c...)
 			imports = append(imports, im...)
 		}
@@ -119,6 +133,10 @@ func (e *Engine) Load() error {
 	// also dependencies
 	for _, sp := range prog.AllPackages() {
 		e.ssaPkgs[sp.Pkg.Path()] = sp
+	}
+	e.constTabs = map[string][]*constTable{}
+	if err := e.resolveConstTables(); err != nil {
+		return err
 	}
 	// resolve contracts
 	e.byFn = map[*ssa.Function]*Contract{}
@@ -310,6 +328,7 @@ func (e *Engine) verifyCase(c *Contract, combo []caseChoice, selRet int) (res *R
 		args = append(args, v)
 	}
 	x.inputs = args
+	x.assumeConstTables(st, c.PkgPath)
 	x.callFunction(h, args, nil, st)
 	res.Obls = x.obls
 	return res
